@@ -275,15 +275,34 @@ def nearest(v):
     return math.floor(Fraction(v) + Fraction(1, 2))
 
 
-def run_pen(shapes, pen):
+def run_pen(shapes, pen, on_stage=None):
+    """Drive one FreeformBuilder.  pen["stages"] (optional) lists contour indices after which the builder is used before it
+    is complete - "convert" makes a shape from what is drawn so far (the builder is documented as re-usable), "peek" reads
+    its public shape_offset_x/y - and drawing then continues on the same builder."""
     sc = pen["scale"]
     fb = shapes.build_freeform(pen["start"][0], pen["start"][1], tuple(sc) if isinstance(sc, list) else sc)
-    for c in pen["contours"]:
+    stages = dict(pen.get("stages") or [])
+    convert = lambda: fb.convert_to_shape(*pen["origin"]) if pen["origin"] is not None else fb.convert_to_shape()  # noqa: E731
+    if stages.get(-1) == "peek":
+        fb.shape_offset_x, fb.shape_offset_y
+        CALLS["builder_peeks"] += 1
+    for k, c in enumerate(pen["contours"]):
         if c["move"] is not None:
             fb.move_to(*c["move"])
         fb.add_line_segments([tuple(v) for v in c["verts"]], close=c["close"])
+        if k < len(pen["contours"]) - 1 and k in stages:
+            if stages[k] == "peek":
+                fb.shape_offset_x, fb.shape_offset_y
+                CALLS["builder_peeks"] += 1
+            else:
+                CALLS["convert_to_shape"] += 1
+                CALLS["builder_reused_after_convert"] += 1
+                early = convert()
+                if on_stage is not None:
+                    on_stage(early, dict(pen, contours=pen["contours"][: k + 1], stages=None))
+                early._element.getparent().remove(early._element)
     CALLS["convert_to_shape"] += 1
-    return fb.convert_to_shape(*pen["origin"]) if pen["origin"] is not None else fb.convert_to_shape()
+    return convert()
 
 
 def check_freeform(shape, pen, acc, wit):
@@ -343,21 +362,26 @@ def gen_pen(r, small=False):
             verts.append(list(last))
         contours.append({"move": [num(), num()] if (k or r.random() < 0.1) else None, "verts": verts, "close": r.random() < 0.5})
     origin = None if r.random() < 0.2 else [r.randint(-(10**7), 10**7), r.randint(-5000, 5000)]
-    return {"start": start, "scale": scale, "contours": contours, "origin": origin}
+    pen = {"start": start, "scale": scale, "contours": contours, "origin": origin}
+    if r.random() < 0.4:  # the builder is used (converted, or its offsets read) before the drawing is complete
+        pen["stages"] = [[k, r.choice(("convert", "peek"))] for k in range(-1, len(contours) - 1) if r.random() < 0.6]
+        pen["stages"] = [[k, "peek" if k < 0 else how] for k, how in pen["stages"]]
+    return pen
 
 
 def pen_class(pen):
     nums = list(pen["start"]) + [n for c in pen["contours"] for v in c["verts"] + ([c["move"]] if c["move"] else []) for n in v]
     nonuni = isinstance(pen["scale"], list) and pen["scale"][0] != pen["scale"][1]
     nontrivial = any(n < 0 or n != int(n) for n in nums) or len(pen["contours"]) > 1 or nonuni
-    return nontrivial, "freeform:%s:%s" % ("multi-contour" if len(pen["contours"]) > 1 else "single-contour", "non-uniform" if nonuni else "uniform")
+    staged = ":builder-used-midway" if pen.get("stages") else ""
+    return nontrivial, "freeform:%s:%s%s" % ("multi-contour" if len(pen["contours"]) > 1 else "single-contour", "non-uniform" if nonuni else "uniform", staged)
 
 
 def freeform_random(unit, acc):
     prs, slide = new_slide()
     for n in range(unit["n"]):
         pen = gen_pen(env.rng("C17", "pen", unit["shard"], n))
-        sp = run_pen(slide.shapes, pen)
+        sp = run_pen(slide.shapes, pen, on_stage=lambda early, prefix: check_freeform(early, prefix, acc, lambda: {"part": "freeform", "pen": pen}))
         check_freeform(sp, pen, acc, lambda: {"part": "freeform", "pen": pen})
         nt, cls = pen_class(pen)
         acc.case(key=env.khash(pen), nontrivial=nt, cls=cls, sample={"pen": pen, "left/top/width/height": [int(sp.left), int(sp.top), int(sp.width), int(sp.height)]} if n == 0 else None)
@@ -609,7 +633,7 @@ def replay(w, acc):
             print("step %d %s -> groups %s" % (step, {k: v for k, v in op.items() if k != "pen"}, [read_xfrm(xfrm_of(g._element))[:4] for g in b.groups]))
     elif part == "freeform":
         prs, slide = new_slide()
-        sp = run_pen(slide.shapes, w["pen"])
+        sp = run_pen(slide.shapes, w["pen"], on_stage=lambda early, prefix: check_freeform(early, prefix, acc, lambda: w))
         print("pen", w["pen"], "-> left/top/width/height", (int(sp.left), int(sp.top), int(sp.width), int(sp.height)))
         check_freeform(sp, w["pen"], acc, lambda: w)
     flush(acc)
